@@ -38,12 +38,12 @@ MANIFEST = {
 RULE = ("one case = a HISTORY of 1..6 calls (same / different / repeated invalid / valid-invalid-valid assignments, UpnpDevice.reinit between calls) on one generated service/action (0..6 in-arguments and 0..2 out-arguments over all 26 data types, "
         "ranges, allowed lists, strict and non-strict factory) built by the real UpnpFactory from generated XML, and "
         "one caller assignment (valid, boundary, out of range, non-member, wrong Python type incl. bool for int, "
-        "missing, extra); strings over XML-legal Unicode with markup, CR/LF/TAB and non-BMP characters. "
+        "missing, extra (not judged)); strings over XML-legal Unicode with markup, CR/LF/TAB and non-BMP characters. "
         "non-trivial = at least one in-argument; distinct = distinct canonical driver text")
 EXHAUSTIVE = {"quick": False, "thorough": False}
 ASSUMPTIONS = [
     "argument/action names are XML names (domain predicate xmlNameOk: they are written as element names, where no escaping exists); service types are arbitrary text (quoted by quoteattr since F06c)",
-    "argument names are distinct within an action",
+    "in-argument names are distinct among themselves (a keyword assignment could not tell two of them apart); an in- and an out-argument may share a name",
     "date/time values have second precision (the wire format has no fractional seconds)",
     "string values contain only characters legal in XML 1.0",
     "URLs follow scheme://netloc/path?query without dot segments or empty interior segments",
@@ -188,7 +188,7 @@ def scpd_xml(decl: Dict[str, Any]) -> str:
     svs = []
     args = []
     for i, a in enumerate(decl["args"]):
-        sv = f"A_ARG_{i}"
+        sv = f"A_ARG_{a['sv']}" if a.get("sv") is not None else f"A_ARG_{i}"
         args.append(f"<argument><name>{xesc(a['name'])}</name><direction>{a['dir']}</direction>"
                     f"<relatedStateVariable>{sv}</relatedStateVariable></argument>")
         extra = ""
@@ -204,9 +204,18 @@ def scpd_xml(decl: Dict[str, Any]) -> str:
             extra += "</allowedValueRange>"
         if a.get("allowed") is not None:
             extra += "<allowedValueList>" + "".join(f"<allowedValue>{xesc(x)}</allowedValue>" for x in a["allowed"]) + "</allowedValueList>"
-        svs.append(f'<stateVariable sendEvents="no"><name>{sv}</name><dataType>{a["type"]}</dataType>{extra}</stateVariable>')
+        if a.get("sv") is None:   # an argument that shares an earlier argument's state variable declares none
+            svs.append(f'<stateVariable sendEvents="no"><name>{sv}</name><dataType>{a["type"]}</dataType>{extra}</stateVariable>')
+    # other actions of the same service (they share state variables with the action under test)
+    others = ""
+    for j in range(decl.get("other_actions", 0)):
+        oargs = "".join(f"<argument><name>{xesc(a['name'])}</name><direction>{'out' if a['dir'] == 'in' else 'in'}</direction>"
+                        f"<relatedStateVariable>A_ARG_{a['sv'] if a.get('sv') is not None else i}</relatedStateVariable></argument>"
+                        for i, a in enumerate(decl["args"]) if (i + j) % 2 == 0)
+        others += f"<action><name>Other{j}_{xesc(decl['action'])}</name><argumentList>{oargs}</argumentList></action>"
+    before, after = (others, "") if decl.get("other_actions", 0) % 2 else ("", others)
     return ('<?xml version="1.0"?><scpd xmlns="urn:schemas-upnp-org:service-1-0"><specVersion><major>1</major><minor>0</minor></specVersion>'
-            f'<actionList><action><name>{xesc(decl["action"])}</name><argumentList>{"".join(args)}</argumentList></action></actionList>'
+            f'<actionList>{before}<action><name>{xesc(decl["action"])}</name><argumentList>{"".join(args)}</argumentList></action>{after}</actionList>'
             f'<serviceStateTable>{"".join(svs)}</serviceStateTable></scpd>')
 
 
@@ -363,10 +372,17 @@ def run_recipe(ctx: Ctx, recipe: Dict[str, Any], cid: str) -> Case:
         kwargs = {n: val_unjson(j) for n, j in op[1]}
         n0 = len(req.log)
         exc: Optional[BaseException] = None
+        via = op[2] if len(op) > 2 else "action"
         try:
-            run(action.async_call(**kwargs))
+            if via == "service_obj":      # UpnpService.async_call_action(action object, **kwargs)
+                run(action.service.async_call_action(action, **kwargs))
+            elif via == "service_name":   # UpnpService.async_call_action("Name", **kwargs)
+                run(action.service.async_call_action(action.name, **kwargs))
+            else:
+                run(action.async_call(**kwargs))
         except Exception as e:  # noqa: BLE001 - the exception is the observation
             exc = e
+        tags.add("via:" + via)
         log = req.log[n0:]
         lines.append("call")
         for n, v in kwargs.items():
@@ -547,23 +563,55 @@ def rand_arg_decl(rng, name: str, direction: str) -> Dict[str, Any]:
     return a
 
 
+def rand_names(rng, dirs: List[str]) -> List[str]:
+    """argument names: distinct among the in-arguments and among the out-arguments; an in- and an
+    out-argument may share a name (legal; `argument(name, direction)` must tell them apart)"""
+    used = {"in": [], "out": []}
+    names: List[str] = []
+    for d in dirs:
+        other = used["out" if d == "in" else "in"]
+        while True:
+            nm = rng.choice(other) if other and rng.random() < 0.3 else rand_name(rng)
+            if nm not in used[d] and not nm.startswith("Unknown_"):
+                break
+        used[d].append(nm)
+        names.append(nm)
+    return names
+
+
+def share_vars(rng, args: List[Dict[str, Any]], only_dir: Optional[str] = None) -> None:
+    """some arguments relate to the state variable of an earlier argument (the usual A_ARG_TYPE_x
+    situation): same data type and declaration, one UpnpStateVariable object"""
+    for i in range(1, len(args)):
+        if rng.random() < 0.15:
+            j = rng.randrange(i)
+            if only_dir is not None and (args[i]["dir"] != only_dir or args[j]["dir"] != only_dir):
+                continue
+            root = args[j].get("sv") if args[j].get("sv") is not None else j
+            for key in ("type", "range", "allowed"):
+                if key in args[root]:
+                    args[i][key] = args[root][key]
+                else:
+                    args[i].pop(key, None)
+            args[i]["sv"] = root
+
+
 def rand_decl(rng) -> Dict[str, Any]:
     n_in = rng.choice([0, 1, 1, 2, 2, 3, 4, 5, 6])
     n_out = rng.choice([0, 0, 1, 2])
     dirs = ["in"] * n_in + ["out"] * n_out
     rng.shuffle(dirs)
-    names: List[str] = []
-    while len(names) < len(dirs):
-        nm = rand_name(rng)
-        if nm not in names:
-            names.append(nm)
+    names = rand_names(rng, dirs)
+    args = [rand_arg_decl(rng, nm, d) for nm, d in zip(names, dirs)]
+    share_vars(rng, args)
     return {
         "strict": rng.random() < 0.8,
         "device_url": rng.choice(DEVICE_URLS),
         "control_url": rng.choice(CONTROL_URLS),
         "service_type": rng.choice(SERVICE_TYPES[:5] if rng.random() < 0.75 else SERVICE_TYPES[5:]),
         "action": rand_name(rng),
-        "args": [rand_arg_decl(rng, nm, d) for nm, d in zip(names, dirs)],
+        "args": args,
+        "other_actions": rng.choice([0, 0, 1, 2]),
     }
 
 
@@ -742,6 +790,9 @@ def rand_case(rng, allow_known: bool = True) -> Dict[str, Any]:
             if rng.random() < 0.15:
                 ops.append(rand_reinit(rng, decl))
             ops.append(["call", rand_kwargs(rng, decl, valid_bias=False if rng.random() < 0.3 else None)])
+    for op in ops:
+        if op[0] == "call" and rng.random() < 0.4:
+            op.append(rng.choice(["service_obj", "service_name"]))
     return {"decl": decl, "ops": ops}
 
 
@@ -761,6 +812,10 @@ CORPUS = [
     {"decl": _decl1("ui2", range={"min": "0", "max": "100"}), "kwargs": [["X", ["i", "101"]]]},
     {"decl": _decl1("string", allowed=["Master", "LF"]), "kwargs": [["X", ["s", "master"]]]},
     {"decl": _decl1("i4"), "kwargs": []},
+    # an in- and an out-argument of one name (audit C06-1): out X -> string, in X -> ui2 0..100
+    {"decl": dict(_decl1("ui2"), action="Swap", args=[{"name": "X", "dir": "out", "type": "string"},
+                                                      {"name": "X", "dir": "in", "type": "ui2", "range": {"min": "0", "max": "100"}}]),
+     "ops": [["call", [["X", ["i", "5"]]]], ["call", [["X", ["i", "101"]]]], ["call", [["X", ["s", "5"]]]]]},
     # histories on one object
     {"decl": _decl1("ui2", range={"min": "0", "max": "100"}),
      "ops": [["call", [["X", ["i", "101"]]]], ["call", [["X", ["i", "101"]]]], ["call", [["X", ["i", "5"]]]],
